@@ -566,7 +566,10 @@ def run_case(ctx, case, model_out: Optional[List[str]] = None):
             # every such edge is classified on its own (see `classify_edge`); one failure per class
             groups: Dict[Optional[str], List[Any]] = {}
             for item in bad:
-                groups.setdefault(classify_edge(ctx.lean, case, item), []).append(item)
+                # corpus inputs marked `expect_minimal` are minimal on the unchanged tree: a specific input on which
+                # the property is known to hold is never part of a recorded finding, whatever its shape
+                fid_item = None if case.get("expect_minimal") else classify_edge(ctx.lean, case, item)
+                groups.setdefault(fid_item, []).append(item)
             for fid in sorted(groups, key=lambda x: (x is not None, x or "")):
                 msg = ", ".join(f"{e[0]}-{e[1]}: bond {b} > Schmidt rank {r}" for e, b, r in groups[fid][:4])
                 ctx.oracle_fail(case, f"SGE bond dimension not minimal: {msg}", finding=fid)
